@@ -143,6 +143,14 @@ module Nat =
     | S n' -> (match m with
                | O -> O
                | S m' -> S (min n' m'))
+
+  (** val even : nat -> bool **)
+
+  let rec even = function
+  | O -> true
+  | S n1 -> (match n1 with
+             | O -> false
+             | S n' -> even n')
  end
 
 module Pos =
@@ -4233,6 +4241,46 @@ let may_clobber live r =
       XH))) :: ((Zpos (XI (XI XH))) :: ((Zpos (XO (XO (XO XH)))) :: ((Zpos
       (XI (XO (XO XH)))) :: ((Zpos (XO (XI (XO XH)))) :: []))))))))))))
 
+(** val dest_reg : xins -> z option **)
+
+let dest_reg = function
+| XMov (d, _) -> (match d with
+                  | XReg (r, _) -> Some r
+                  | _ -> None)
+| XAdd (d, _) -> (match d with
+                  | XReg (r, _) -> Some r
+                  | _ -> None)
+| XSub (d, _) -> (match d with
+                  | XReg (r, _) -> Some r
+                  | _ -> None)
+| XInc d -> (match d with
+             | XReg (r, _) -> Some r
+             | _ -> None)
+| XDec d -> (match d with
+             | XReg (r, _) -> Some r
+             | _ -> None)
+| XImul2 (d, _) -> (match d with
+                    | XReg (r, _) -> Some r
+                    | _ -> None)
+| XImul3 (d, _, _) -> (match d with
+                       | XReg (r, _) -> Some r
+                       | _ -> None)
+| XLea (d, _, _, _) -> Some d
+
+(** val pinned : z -> bool **)
+
+let pinned r =
+  (||) ((||) (Z.eqb r (Zpos (XI XH))) (Z.eqb r (Zpos (XO (XO XH)))))
+    (Z.eqb r (Zpos (XI (XO XH))))
+
+(** val keeps_pinned : xins list -> bool **)
+
+let keeps_pinned code =
+  forallb (fun i ->
+    match dest_reg i with
+    | Some r -> negb (pinned r)
+    | None -> true) code
+
 (** val form_ok : z -> binstr -> z -> xins list -> bool **)
 
 let form_ok w i live code =
@@ -4241,28 +4289,279 @@ let form_ok w i live code =
     let (dst, want) = p in
     (match srun w code sst0 with
      | Some s ->
-       let got =
-         match dst with
-         | LReg r -> sget_r s r
-         | LCell k -> sget_c s k
-         | LSlot t0 -> sget_s s t0
-       in
-       (&&)
-         ((&&)
-           ((&&) (same_poly w got want)
-             (forallb (fun kv ->
-               (||) (xloc_eqb dst (LCell (fst kv)))
-                 (same_poly w (sget_c s (fst kv)) (e_var (acell (fst kv)))))
-               s.sc))
-           (forallb (fun kv ->
-             (||) (xloc_eqb dst (LSlot (fst kv)))
-               (same_poly w (sget_s s (fst kv)) (e_var (aslot (fst kv)))))
-             s.ss))
-         (forallb (fun kv ->
-           (||)
-             ((||) (xloc_eqb dst (LReg (fst kv))) (may_clobber live (fst kv)))
-             (same_poly w (sget_r s (fst kv)) (e_var (areg (fst kv))))) s.sr)
+       (&&) (keeps_pinned code)
+         (let got =
+            match dst with
+            | LReg r -> sget_r s r
+            | LCell k -> sget_c s k
+            | LSlot t0 -> sget_s s t0
+          in
+          (&&)
+            ((&&)
+              ((&&) (same_poly w got want)
+                (forallb (fun kv ->
+                  (||) (xloc_eqb dst (LCell (fst kv)))
+                    (same_poly w (sget_c s (fst kv)) (e_var (acell (fst kv)))))
+                  s.sc))
+              (forallb (fun kv ->
+                (||) (xloc_eqb dst (LSlot (fst kv)))
+                  (same_poly w (sget_s s (fst kv)) (e_var (aslot (fst kv)))))
+                s.ss))
+            (forallb (fun kv ->
+              (||)
+                ((||) (xloc_eqb dst (LReg (fst kv)))
+                  (may_clobber live (fst kv)))
+                (same_poly w (sget_r s (fst kv)) (e_var (areg (fst kv)))))
+              s.sr))
      | None -> false)
+  | None -> false
+
+type kins =
+| KPush of z
+| KPop of z
+| KSubRsp
+| KAddRsp
+| KMovRR of z * z
+| KLoad of z * z
+| KMovI of z * z
+| KCall of z
+| KTest8 of z
+| KCmp64 of z * z
+| KJe
+| KJne
+| KStore of z * z
+
+type kval =
+| VInit of z
+| VCell of z
+| VRet of z
+| VImm of z
+| VJunk
+
+type ktest =
+| TNone
+| TTest8 of kval
+| TCmp64 of kval * z
+
+type ksym = { yr : (z * kval) list; ystore : (z * kval) list; yk : kval list;
+              ycalls : (kval * kval) list; ytest : ktest; ycalled : bool;
+              yexit : (bool * ktest) option }
+
+(** val ksym0 : ksym **)
+
+let ksym0 =
+  { yr = []; ystore = []; yk = []; ycalls = []; ytest = TNone; ycalled =
+    false; yexit = None }
+
+(** val klook : z -> (z * kval) list -> kval -> kval **)
+
+let rec klook r l d =
+  match l with
+  | [] -> d
+  | p :: l' -> let (r', v) = p in if Z.eqb r' r then v else klook r l' d
+
+(** val yget : ksym -> z -> kval **)
+
+let yget y r =
+  klook r y.yr (VInit r)
+
+(** val yset : ksym -> z -> kval -> ksym **)
+
+let yset y r v =
+  { yr = ((r, v) :: y.yr); ystore = y.ystore; yk = y.yk; ycalls = y.ycalls;
+    ytest = y.ytest; ycalled = y.ycalled; yexit = y.yexit }
+
+(** val ystep : ksym -> kins -> ksym option **)
+
+let ystep y i = match i with
+| KPush r ->
+  Some { yr = y.yr; ystore = y.ystore; yk = ((yget y r) :: y.yk); ycalls =
+    y.ycalls; ytest = y.ytest; ycalled = y.ycalled; yexit = y.yexit }
+| KPop r ->
+  if pinned r
+  then None
+  else (match y.yk with
+        | [] -> None
+        | v :: k' ->
+          Some { yr = ((r, v) :: y.yr); ystore = y.ystore; yk = k'; ycalls =
+            y.ycalls; ytest = y.ytest; ycalled = y.ycalled; yexit = y.yexit })
+| KSubRsp ->
+  Some { yr = y.yr; ystore = y.ystore; yk = (VJunk :: y.yk); ycalls =
+    y.ycalls; ytest = y.ytest; ycalled = y.ycalled; yexit = y.yexit }
+| KAddRsp ->
+  (match y.yk with
+   | [] -> None
+   | _ :: k' ->
+     Some { yr = y.yr; ystore = y.ystore; yk = k'; ycalls = y.ycalls; ytest =
+       y.ytest; ycalled = y.ycalled; yexit = y.yexit })
+| KMovRR (d, s) -> if pinned d then None else Some (yset y d (yget y s))
+| KLoad (d, k) ->
+  if pinned d
+  then None
+  else if existsb (fun kv -> Z.eqb (fst kv) k) y.ystore
+       then None
+       else Some (yset y d (VCell k))
+| KMovI (d, c) -> if pinned d then None else Some (yset y d (VImm c))
+| KCall _ ->
+  if (||) y.ycalled (negb (Nat.even (length y.yk)))
+  then None
+  else Some { yr =
+         (app
+           (map (fun r -> (r, (VRet r))) (Z0 :: ((Zpos XH) :: ((Zpos (XO
+             XH)) :: ((Zpos (XO (XI XH))) :: ((Zpos (XI (XI XH))) :: ((Zpos
+             (XO (XO (XO XH)))) :: ((Zpos (XI (XO (XO XH)))) :: ((Zpos (XO
+             (XI (XO XH)))) :: ((Zpos (XI (XI (XO XH)))) :: [])))))))))) y.yr);
+         ystore = y.ystore; yk = y.yk; ycalls =
+         (((yget y (Zpos (XI (XI XH)))),
+         (yget y (Zpos (XO (XI XH))))) :: []); ytest = y.ytest; ycalled =
+         true; yexit = y.yexit }
+| KTest8 r ->
+  Some { yr = y.yr; ystore = y.ystore; yk = y.yk; ycalls = y.ycalls; ytest =
+    (TTest8 (yget y r)); ycalled = y.ycalled; yexit = y.yexit }
+| KCmp64 (r, c) ->
+  Some { yr = y.yr; ystore = y.ystore; yk = y.yk; ycalls = y.ycalls; ytest =
+    (TCmp64 ((yget y r), c)); ycalled = y.ycalled; yexit = y.yexit }
+| KStore (k, r) ->
+  (match y.yexit with
+   | Some _ ->
+     Some { yr = y.yr; ystore = ((k, (yget y r)) :: y.ystore); yk = y.yk;
+       ycalls = y.ycalls; ytest = y.ytest; ycalled = y.ycalled; yexit =
+       y.yexit }
+   | None -> None)
+| _ ->
+  (match y.yexit with
+   | Some _ -> None
+   | None ->
+     (match y.yk with
+      | [] ->
+        if negb y.ycalled
+        then None
+        else Some { yr = y.yr; ystore = y.ystore; yk = y.yk; ycalls =
+               y.ycalls; ytest = y.ytest; ycalled = y.ycalled; yexit = (Some
+               ((match i with
+                 | KJe -> true
+                 | _ -> false), y.ytest)) }
+      | _ :: _ -> None))
+
+(** val yrun : kins list -> ksym -> ksym option **)
+
+let rec yrun code y =
+  match code with
+  | [] -> Some y
+  | i :: rest -> (match ystep y i with
+                  | Some y' -> yrun rest y'
+                  | None -> None)
+
+(** val kval_eqb : kval -> kval -> bool **)
+
+let kval_eqb a b =
+  match a with
+  | VInit x -> (match b with
+                | VInit y -> Z.eqb x y
+                | _ -> false)
+  | VCell x -> (match b with
+                | VCell y -> Z.eqb x y
+                | _ -> false)
+  | VRet x -> (match b with
+               | VRet y -> Z.eqb x y
+               | _ -> false)
+  | VImm x -> (match b with
+               | VImm y -> Z.eqb x y
+               | _ -> false)
+  | VJunk -> false
+
+(** val must_keep : z -> z -> bool **)
+
+let must_keep live r =
+  (||) (pinned r)
+    (existsb (fun t0 ->
+      match tmp_reg t0 with
+      | Some r' -> (&&) (Z.eqb r' r) (Z.testbit live t0)
+      | None -> false) (Z0 :: ((Zpos XH) :: ((Zpos (XO XH)) :: ((Zpos (XI
+      XH)) :: ((Zpos (XO (XO XH))) :: ((Zpos (XI (XO XH))) :: ((Zpos (XO (XI
+      XH))) :: ((Zpos (XI (XI XH))) :: ((Zpos (XO (XO (XO XH)))) :: ((Zpos
+      (XI (XO (XO XH)))) :: ((Zpos (XO (XI (XO XH)))) :: []))))))))))))
+
+(** val regs_restored : z -> ksym -> bool **)
+
+let regs_restored live y =
+  forallb (fun r ->
+    (||) (negb (must_keep live r)) (kval_eqb (yget y r) (VInit r)))
+    (Z0 :: ((Zpos XH) :: ((Zpos (XO XH)) :: ((Zpos (XI XH)) :: ((Zpos (XO (XO
+    XH))) :: ((Zpos (XI (XO XH))) :: ((Zpos (XO (XI XH))) :: ((Zpos (XI (XI
+    XH))) :: ((Zpos (XO (XO (XO XH)))) :: ((Zpos (XI (XO (XO XH)))) :: ((Zpos
+    (XO (XI (XO XH)))) :: ((Zpos (XI (XI (XO XH)))) :: ((Zpos (XO (XO (XI
+    XH)))) :: ((Zpos (XI (XO (XI XH)))) :: ((Zpos (XO (XI (XI
+    XH)))) :: ((Zpos (XI (XI (XI XH)))) :: []))))))))))))))))
+
+(** val u64M1 : z **)
+
+let u64M1 =
+  Z.sub (Z.pow (Zpos (XO XH)) (Zpos (XO (XO (XO (XO (XO (XO XH)))))))) (Zpos
+    XH)
+
+(** val call_ok : binstr -> z -> kins list -> bool **)
+
+let call_ok i live code =
+  match yrun code ksym0 with
+  | Some y ->
+    (&&)
+      ((&&) ((&&) (match y.yk with
+                   | [] -> true
+                   | _ :: _ -> false) y.ycalled) (regs_restored live y))
+      (match i with
+       | Inp dst ->
+         (&&)
+           ((&&)
+             (match y.ycalls with
+              | [] -> false
+              | p :: l ->
+                let (a, _) = p in
+                (match l with
+                 | [] -> kval_eqb a (VInit (Zpos (XI XH)))
+                 | _ :: _ -> false))
+             (match y.yexit with
+              | Some p ->
+                let (b, k) = p in
+                if b
+                then (match k with
+                      | TCmp64 (v, c) ->
+                        (&&) (kval_eqb v (VRet Z0)) (Z.eqb c u64M1)
+                      | _ -> false)
+                else false
+              | None -> false))
+           (match y.ystore with
+            | [] -> false
+            | p :: l ->
+              let (k, v) = p in
+              (match l with
+               | [] -> (&&) (Z.eqb k dst) (kval_eqb v (VRet Z0))
+               | _ :: _ -> false))
+       | Outp src ->
+         (&&)
+           ((&&)
+             (match y.ycalls with
+              | [] -> false
+              | p :: l ->
+                let (a, b) = p in
+                (match l with
+                 | [] ->
+                   (&&) (kval_eqb a (VInit (Zpos (XI XH))))
+                     (kval_eqb b (VCell src))
+                 | _ :: _ -> false))
+             (match y.yexit with
+              | Some p ->
+                let (b, k) = p in
+                if b
+                then false
+                else (match k with
+                      | TTest8 v -> kval_eqb v (VRet Z0)
+                      | _ -> false)
+              | None -> false))
+           (match y.ystore with
+            | [] -> true
+            | _ :: _ -> false)
+       | _ -> false)
   | None -> false
 
 type kind =
